@@ -694,7 +694,7 @@ class PEP8Normalizer(ErrorFinder):
                 self.add_issue(leaf, 703, 'Statement ends with a semicolon')
             else:
                 self.add_issue(leaf, 702, 'Multiple statements on one line (semicolon)')
-        elif leaf.value in ('==', '!='):
+        elif leaf.value in ('==', '!=') and leaf.parent.type == 'comparison':
             comparison = leaf.parent
             index = comparison.children.index(leaf)
             left = comparison.children[index - 1]
